@@ -96,6 +96,34 @@ def run(ctx):
     ctx.holds('R04x', m, None, 'no function of latexencode modifies an argument object in place (%d functions with parameters)'
               % n_f4, construct='argument mutation scan', trivial=True)
 
+    # ---- R04y: the result object is only ever extended with `+=`
+    ctx.rule('R04y', 'the encoder extends its result (`<p>.latex`, an instance of the caller\'s latex_string_class, documented to '
+                     'need nothing but a no-argument constructor and `__iadd__`) with `+=` only: `p.latex = p.latex + x` calls '
+                     '`__add__`, which such a class does not have -- TypeError for the documented chunk-list class as soon as '
+                     'that site is reached (non_ascii_only with an ASCII character)', 3)
+    n_l4 = 0
+    for mn_, mod_ in sorted(repo.modules.items()):
+        if not mn_.startswith('pylatexenc.latexencode') or mn_.endswith('__main__'):
+            continue
+        for q_, fnode in sorted(mod_.functions.items()):
+            for st_ in iter_own(fnode):
+                if isinstance(st_, ast.AugAssign) and isinstance(st_.target, ast.Attribute) and st_.target.attr == 'latex':
+                    n_l4 += 1
+                    ctx.decide('R04y', isinstance(st_.op, ast.Add), mod_, st_, '%s: result extended with +=' % q_,
+                               '%s updates the result with `%s`, not `+=`' % (q_, short(st_, 40)),
+                               construct='%s: %s' % (q_, short(st_, 40)))
+                elif isinstance(st_, ast.Assign) and any(isinstance(t_, ast.Attribute) and t_.attr == 'latex' for t_ in st_.targets):
+                    tt_ = [unparse(t_) for t_ in st_.targets if isinstance(t_, ast.Attribute) and t_.attr == 'latex'][0]
+                    reads_ = [x_ for x_ in ast.walk(st_.value) if isinstance(x_, ast.Attribute) and unparse(x_) == tt_]
+                    n_l4 += 1
+                    ctx.decide('R04y', not reads_, mod_, st_, '%s: result created, not rebuilt from itself' % q_,
+                               '%s rebuilds the result object with `%s`: that is `__add__` (or whatever the expression calls) on '
+                               'an instance of latex_string_class, which is only required to support `+=`; with the chunk-list '
+                               'class of the documentation this raises TypeError' % (q_, short(st_, 50)),
+                               construct='%s: %s' % (q_, short(st_, 40)))
+    if not n_l4:
+        ctx.unknown('R04y', m, None, 'no update of a `.latex` result found in latexencode', construct='result updates')
+
     # ---- R04p: text kept by the partial encoder is one whole token
     ctx.rule('R04p', 'PartialLatexToLatexEncoder: whatever is kept unencoded is measured by the token that was read (its '
                      'end position), never a fixed number of characters', 1)
